@@ -12,7 +12,7 @@ KEEP_EXC = {'Exception', 'BaseException', 'KeyError', 'OSError', 'StopIteration'
 KWFORMS = {
     'print': [['sep'], ['end'], ['file'], ['flush'], ['sep', 'end']],
     'sorted': [['key'], ['reverse'], ['key', 'reverse']],
-    'max': [['key'], ['default']], 'min': [['key'], ['default']],
+    'max': [['key'], ['default'], ['key', 'default']], 'min': [['key'], ['default'], ['key', 'default']],
     'int': [['base']], 'enumerate': [['start']], 'dict': [['a'], ['x', 'y']], 'sum': [['start']], 'round': [['ndigits']], 'compile': [['mode']],
     'str': [['encoding']], 'bytes': [['encoding']], 'open': [['mode']], 'range': [['step']], 'zip': [['strict']], 'complex': [['imag']], 'type': [['dict']],
 }
